@@ -1,5 +1,6 @@
 (* C22 proofs, part 3: the remaining scan_* helpers ($ parameters and dollar quotes, : @ parameters,
-   comments, .5 floats) and the dispatch of next_token on the first byte (scan_token). *)
+   comments, .5 floats), the dispatch of next_token on the first byte (scan_token) and one iteration of
+   next_token's comment-skipping loop (comment_or_token). *)
 From Coq Require Import ZArith List Bool Arith Lia ZifyBool.
 From TV Require Import Model.LexerKeywords Model.Lexer Proof.LexerBase Proof.LexerScan.
 Import ListNotations.
@@ -148,31 +149,14 @@ Proof.
   eapply wp_scan_named; eauto. lia.
 Qed.
 
-(* ---------------------------------------------------------------- - / comments *)
+(* ---------------------------------------------------------------- - *)
 Lemma wp_scan_minus : forall st, inv st -> (pos st < len s)%nat -> wp (scan_minus s st) (sc_post st).
 Proof.
   intros st Hi Hp. unfold scan_minus. step. posn. step; [fin|]. step.
-  step; [step; fin|].
   step; [|fin].
   step. step.
   - ex_bytes. step. fin.
   - fin.
-Qed.
-
-Lemma wp_scan_block_comment : forall st0 st, inv st -> (pos st0 < pos st)%nat -> (2 <= pos st)%nat ->
-  wp (scan_block_comment s st) (sc_post st0).
-Proof.
-  intros st0 st Hi Hlt H2. unfold scan_block_comment.
-  eapply wp_bind; [apply (wp_block_loop s pan Hgood); [assumption | unfold lfuel; lia | intros _; lia]|].
-  intros [st1 depth] [? ?]. cbn [fst snd] in *.
-  step; fin.
-Qed.
-
-Lemma wp_scan_slash : forall st, inv st -> (pos st < len s)%nat -> wp (scan_slash s st) (sc_post st).
-Proof.
-  intros st Hi Hp. unfold scan_slash. step. posn. step; [fin|]. step.
-  step; [|fin].
-  step. posn. eapply wp_scan_block_comment; [assumption | lia | lia].
 Qed.
 
 (* ---------------------------------------------------------------- . *)
@@ -211,7 +195,7 @@ Proof.
   step; [apply wp_scan_at_param; assumption|].
   step; [apply (wp_scan_question s pan Hgood); assumption|].
   step; [apply wp_scan_minus; assumption|].
-  step; [apply wp_scan_slash; assumption|].
+  step; [apply (wp_scan_single s pan Hgood); assumption|].
   step; [apply (wp_scan_single s pan Hgood); assumption|].
   step; [apply (wp_scan_single s pan Hgood); assumption|].
   step; [apply (wp_scan_single s pan Hgood); assumption|].
@@ -234,6 +218,34 @@ Proof.
   step; [apply (wp_scan_single s pan Hgood); assumption|].
   step; [apply Z.eqb_eq in E30; subst a; apply wp_scan_dot; assumption|].
   apply (wp_scan_single s pan Hgood); assumption.
+Qed.
+
+(* ---------------------------------------------------------------- one iteration of next_token's loop *)
+Lemma wp_skip_block_comment : forall st, inv st -> (1 <= pos st)%nat ->
+  wp (skip_block_comment s st) (fun r => inv (fst r) /\ (pos st <= pos (fst r))%nat).
+Proof.
+  intros st Hi Hp. unfold skip_block_comment.
+  eapply wp_bind; [apply (wp_block_loop s pan Hgood); [assumption | unfold lfuel; lia | intros _; lia]|].
+  intros [st1 depth] [? ?]. cbn [fst snd] in *. simpl. split; assumption.
+Qed.
+
+Lemma wp_comment_or_token : forall st, inv st -> (pos st < len s)%nat ->
+  wp (comment_or_token s st) (sc_post st).
+Proof.
+  intros st Hi Hp. unfold comment_or_token. step.
+  step.
+  { (* -- comment: skip to the end of the line; the first '-' is consumed, so progress *)
+    apply andb_prop in E as [E _]. apply Z.eqb_eq in E. subst a.
+    step. simpl. split; [assumption|].
+    match goal with H : (exists b, _) -> (pos st < pos st0)%nat |- _ => apply H end.
+    exists 45. split; [assumption | reflexivity]. }
+  step.
+  { (* block comment *)
+    step. posn. step.
+    eapply wp_bind; [apply wp_skip_block_comment; [assumption | lia]|].
+    intros [st2 closed] [? ?]. cbn [fst snd] in *.
+    step; fin. }
+  apply wp_scan_token; assumption.
 Qed.
 
 End Scan2.
